@@ -20,7 +20,7 @@
 //! `parking_lot` lock, a couple of atomics).
 
 use crate::error::{CloseError, RecvError, RecvErrorTimeout, SendError, TryRecvError, TrySendError};
-use crate::internal::rendezvous::{MpscRvShared as RvShared, WAITING};
+use crate::internal::rendezvous::{MpscRvShared as RvShared, DISCONNECTED, WAITING};
 
 use std::future::Future;
 use std::marker::PhantomPinned;
@@ -263,7 +263,8 @@ impl<T: Send> Drop for RendezvousSyncReceiver<T> {
 impl<T: Send> RendezvousAsyncSender<T> {
   /// Sends a value, resolving once the receiver takes it or the channel closes.
   pub fn send(&self, item: T) -> SendFuture<'_, T> {
-    SendFuture::new(&self.shared, item)
+    let fut = SendFuture::new(&self.shared, item);
+    if self.closed.load(Ordering::Relaxed) { fut.rejected() } else { fut }
   }
 
   /// Attempts to hand off to an already-waiting receiver without awaiting.
@@ -339,7 +340,8 @@ impl<T: Send> RendezvousAsyncReceiver<T> {
   /// Receives a value, resolving once the sender hands one off or the channel
   /// disconnects.
   pub fn recv(&self) -> RecvFuture<'_, T> {
-    RecvFuture::new(&self.shared)
+    let fut = RecvFuture::new(&self.shared);
+    if self.closed.load(Ordering::Relaxed) { fut.rejected() } else { fut }
   }
 
   /// Attempts to take from an already-waiting sender without awaiting.
@@ -431,6 +433,14 @@ impl<'a, T: Send> SendFuture<'a, T> {
       _pin: PhantomPinned,
     }
   }
+
+  /// For an operation started on a handle that was already closed: the first poll takes the
+  /// regular terminal path and resolves with the closed/disconnected error.
+  fn rejected(mut self) -> Self {
+    self.state = AtomicU8::new(DISCONNECTED);
+    self.registered = true;
+    self
+  }
 }
 
 impl<'a, T: Send> Future for SendFuture<'a, T> {
@@ -476,6 +486,14 @@ impl<'a, T: Send> RecvFuture<'a, T> {
       registered: false,
       _pin: PhantomPinned,
     }
+  }
+
+  /// For an operation started on a handle that was already closed: the first poll takes the
+  /// regular terminal path and resolves with the closed/disconnected error.
+  fn rejected(mut self) -> Self {
+    self.state = AtomicU8::new(DISCONNECTED);
+    self.registered = true;
+    self
   }
 }
 
